@@ -33,7 +33,7 @@ Definition uuid_time (u : uuid) : Z := (f_hiv u mod 4096) * 2 ^ 48 + f_mid u * 2
 Definition decode_us (u : uuid) : Z := (uuid_time u - OFFSET) / 10.
 
 Definition min_uuid (us : Z) : uuid := uuid_from_us us 141289400074368 128.          (* 0x808080808080, 0x80 *)
-Definition max_uuid (us : Z) : uuid := uuid_from_us us 139637976727423 16255.        (* 0x7f7f7f7f7f7f, 0x3f7f *)
+Definition max_uuid (us : Z) : uuid := uuid_from_us us 140185576636287 16255.        (* 0x7f7f7f7f7f7f, 0x3f7f *)
 
 (* bytes 8..15 of the UUID *)
 Definition lsb_bytes (u : uuid) : list Z :=
